@@ -31,6 +31,8 @@ def evaluate(prop, facts, tier):
         if files:
             n = structure.check(ctx, files)
             ctx.clauses.append("frozen loop structure of the anchor files %s: every continuing iteration reaches the reference calls, no new early exit, no new carried state (T10, %d loops)" % (sorted(files), n))
+            n2 = structure.check_ranges(ctx, files)
+            ctx.clauses.append("accessor ranges of the anchor files: loops handing operation indices / chambers to D-set accessors still end inclusively at dim() / size() where the reference did (T12, %d sites)" % n2)
     except core.AnchorMissing as e:
         ctx.ob("anchor", str(e), "missing", "violation",
                "an anchor confirmed on the reference tree is gone; the rule instance cannot be evaluated (fail closed)")
